@@ -1,4 +1,4 @@
-import AsyncFix.Lemmas.LinkFrames
+import AsyncFix.Lemmas.LinkBuilt
 
 /-!
 C07: `Session.recv` on a well-formed frame agrees with the abstract receiver `arecv` – part A: the statement
@@ -26,7 +26,12 @@ macro "ev_simp" "[" ts:Lean.Parser.Tactic.simpLemma,* "]" : tactic =>
       Journal.setSeq, stateSet_apply, setState, disconnect,
       st_ACTIVE, st_NETWORK_CONN_ESTABLISHED, st_LOGON_INITIAL_SENT, st_DISCONNECTED_BROKEN_CONN,
       st_DISCONNECTED_WCONN_TODAY, st_DISCONNECTED_NOCONN_TODAY, st_RESENDREQ_AWAITING, st_LOGON_INITIAL_RECV,
-      st_RECV_SEQNUM_TOO_HIGH, st_RESENDREQ_HANDLING, writesOf, deliveriesOf, $ts,*])
+      st_RECV_SEQNUM_TOO_HIGH, st_RESENDREQ_HANDLING, writesOf, deliveriesOf,
+      absConn, absSt, restState, absDelivered, AConn.advance, AConn.askResend, AConn.push, AConn.drop, AConn.dropLogout,
+      AKind.entry, sentFresh, sendMsg_resendReq', sendMsg_logonReply', sendMsg_logout', sendMsg_logout_conn',
+      absFrame_build_resend, absFrame_build_logon, absFrame_build_logout, absRow_build_resend, absRow_build_logon,
+      absRow_build_logout, frameGood_build_resend, frameGood_build_logon, frameGood_build_logout, rowsGood_append,
+      get?_build_34, $ts,*])
 
 /-- the facts about a frame of the peer that every case uses -/
 structure InFrame (c : Conn) (f : Msg) (n : Int) : Prop where
@@ -110,5 +115,30 @@ theorem recv_app_accept {s : Side} {env : Env} {c : Conn} {f : Msg} {n : Int}
     · ev_simp [h8, h49, h56, h34, hst, hA, h2, h4, h5, h0, h1, he, insert_append _ _ _ hinb, absConn, absSt,
         AConn.advance, g1, g2, g5, g7, g8, hinb', absDelivered, seqOf_of_get? h34, restState, hsock, hw', hm]
       omega
+
+theorem rowsGood_push {snd tgt : String} {o : Int} {rs : Rows} {f : Msg} (h : RowsGood snd tgt o rs)
+    (ho : 1 ≤ o) (hf : FrameGood snd tgt f) (h34 : f.get? tMsgSeqNum = some (pyStr o)) :
+    RowsGood snd tgt (o + 1) (rs ++ [(o, f)]) := rowsGood_append h ho hf h34
+
+/-- an application frame numbered above the expectation in ACTIVE: ResendRequest, awaiting -/
+theorem recv_app_gap_active {s : Side} {env : Env} {c : Conn} {f : Msg} {n : Int}
+    (hc : ConnGood s c) (hi : InFrame c f n) (hl3 : isLatin1 env.stamp = true)
+    (hst : c.state = st_ACTIVE)
+    (hA : f.mtype ≠ mLogon) (h2 : f.mtype ≠ mResendRequest) (h4 : f.mtype ≠ mSequenceReset) (h5 : f.mtype ≠ mLogout)
+    (h0 : f.mtype ≠ mHeartbeat) (h1 : f.mtype ≠ mTestRequest)
+    (hn : c.sess.nextIn < n) :
+    StepOK s { c := ((absConn c).askResend n).1, wr := [((absConn c).askResend n).2] }
+      (recv srAll env c f).1 (recv srAll env c f).2 := by
+  obtain ⟨h8, h49, h56, h34⟩ := hi
+  obtain ⟨g1, g2, g5, g6, g7, g8, he, hinb, hrows, l1, l2⟩ := connFacts hc
+  have hsock := sock_of_state hc (by rw [hst]; decide)
+  have hlow : ¬ n < c.sess.nextIn := by omega
+  have hpos : 0 < n := by omega
+  rw [stepOK_iff, connGood_iff]
+  simp only [← g1, ← g2] at g8 ⊢
+  ev_simp [h8, h49, h56, h34, hst, hA, h2, h4, h5, h0, h1, he, absConn, absSt, g5, g7, g8, restState, hsock,
+    hn, hlow, sendMsg_resendReq', sentFresh, hrows, l1, l2, hl3, absFrame_build_resend, AConn.askResend, AConn.push,
+    absRow_build_resend, AKind.entry, frameGood_build_resend, rowsGood_append, get?_build_34, hinb, hpos, g6]
+  omega
 
 end AsyncFix.Link
